@@ -490,6 +490,6 @@ func TestWire(t *testing.T) {
 			}
 			return cl
 		},
-		Quick: 6000, Thorough: 200000,
+		Quick: 6000, Thorough: 120000,
 	})
 }
